@@ -1,6 +1,7 @@
 // Stream-seam scenarios: C16 (same members through every kind of input
 // stream and behind a self-extractor prefix) and C13 (bounded liveness in
 // seam steps, bounded heap).
+#include "clienv.h"
 #include "driver.h"
 #include "gen.h"
 
@@ -98,6 +99,7 @@ struct C16 : Scenario {
 		BuiltArchive a0 = build_archive(p);
 		if (rng.chance(1, 3)) t.trunc = (int64_t) rng.below(a0.bytes.size() + 1);   // relative to A; shifted by the prefix at run time
 		p.tasks.push_back(t);
+		if (rng.chance(1, 2)) { static const char *cc[] = {"t", "l", "v", "tq1", "lv", "vv", "tq0", "lq"}; p.sets("clicmd", cc[rng.below(8)]); }
 		// prefix
 		int mode = (int) (run % 8);
 		size_t plen = 0;
@@ -230,6 +232,32 @@ struct C16 : Scenario {
 		}
 		if (res.ok && (!same_headers(r1.H, r0.H) || !same_headers(r2.H, r0.H)))
 			res.fail("C16.headers", "headers:modes", "seekable-file reference yields different headers when listing, reading and checking");
+		// the tool: 'lha CMD ARCHIVE' against 'lha CMD -' (stdin as a pipe and as a seekable file): same stdout, same exit status
+		if (res.ok && !p.gets("clicmd").empty()) {
+			std::string cmd = p.gets("clicmd");
+			struct Out { std::string out; int status; bool exited, budget; };
+			auto run1 = [&](const std::string &arg, const std::string &kind) {
+				Plan q = p;
+				q.argv = {"lha", cmd, arg};
+				q.sets("srckind", kind);
+				q.seti("trunc", shifted.trunc);
+				q.seti("euid", 0);
+				CliEnv env(q);
+				g_sim.budget = g_sim.steps + 200000 + 64 * full.size();
+				CliResult r = env.run(q, full);
+				return Out{r.out, r.status, r.exited, r.budget};
+			};
+			Out f = run1("/w/a.lzh", "FILE_SEEK");
+			Out pp = run1("-", "FILE_PIPE");
+			Out ss = run1("-", "FILE_SEEK");
+			evals += 3;
+			if (f.budget || pp.budget || ss.budget) res.fail("C16.budget", "budget:cli", "'lha " + cmd + "' did not finish within the step budget");
+			else if (f.out != pp.out || f.status != pp.status || f.exited != pp.exited)
+				res.fail("C16.cli_stdin", "cli:pipe:" + cmd.substr(0, 1), strf("'lha %s ARCHIVE' and 'lha %s -' (pipe) differ: exit %d vs %d, stdout %zu vs %zu bytes", cmd.c_str(), cmd.c_str(), f.status, pp.status, f.out.size(), pp.out.size()));
+			else if (f.out != ss.out || f.status != ss.status || f.exited != ss.exited)
+				res.fail("C16.cli_stdin", "cli:seekable_stdin:" + cmd.substr(0, 1), strf("'lha %s ARCHIVE' and 'lha %s - < ARCHIVE' differ: exit %d vs %d", cmd.c_str(), cmd.c_str(), f.status, ss.status));
+			count("kind.cli." + cmd);
+		}
 		g_sim.counters["evals"] = evals;
 		res.ops = evals;
 		res.nontrivial = !r0.H.empty() && (plen > 0 || base.trunc >= 0 || r0.H.size() >= 2);
